@@ -719,7 +719,10 @@ class Interp:
             if isinstance(a, SOpaque) and isinstance(b, SOpaque):
                 if a is b:
                     return True
-                raise Unsupported("equality of opaque values")
+                if hasattr(a, "opaque_eq"):
+                    return a.opaque_eq(self, b)
+                n1, n2 = sorted([a.name, b.name])
+                return z3.Bool(f"opaque_eq[{n1}=={n2}]")      # unknown, but consistent
             if isinstance(a, SSet) and isinstance(b, SSet):
                 return a.items == b.items
             if isinstance(a, (SObj, SList, SDict, SSet)) and isinstance(b, (SObj, SList, SDict, SSet)):
@@ -1432,7 +1435,43 @@ class Interp:
             return self.eval(node.body, fr)
         return self.eval(node.orelse, fr)
 
+    def truth_jv(self, t):
+        """python truthiness of a JV term as a formula (no forking)"""
+        Z = self.Z
+        r, a = Z.rec, Z.acc
+        dict_nonempty = z3.Function("dict_nonempty", z3.ArraySort(z3.StringSort(), Z.JV), z3.BoolSort())
+        return z3.Or(z3.And(r["bool"](t), a["b"](t)), z3.And(r["int"](t), a["i"](t) != 0),
+                     z3.And(r["flt"](t), z3.Not(z3.And(a["fk"](t) == Z.fk["fin"], a["r"](t) == 0))),
+                     z3.And(r["str"](t), z3.Length(a["s"](t)) > 0), z3.And(r["list"](t), z3.Length(a["items"](t)) > 0),
+                     r["val"](t), r["obj"](t), z3.And(r["dict"](t), dict_nonempty(a["m"](t))))
+
+    @staticmethod
+    def _pure_simple(node):
+        while isinstance(node, ast.Attribute):
+            node = node.value
+        return isinstance(node, (ast.Name, ast.Constant))
+
     def e_BoolOp(self, node, fr):
+        # operands that are plain names/attributes/constants have no effects: `a or b` over symbolic booleans or
+        # dynamic values is then an if-then-else term instead of a fork (same value semantics, fewer paths)
+        if all(self._pure_simple(v) for v in node.values):
+            saved = (self.path.pos, len(self.path.pc), len(self.path.decisions))
+            try:
+                vals = [self.eval(v, fr) for v in node.values]
+            except PyRaise:
+                vals = None
+            if vals is not None and (self.path.pos, len(self.path.pc), len(self.path.decisions)) == saved:
+                if all(isinstance(v, (SBool, bool)) for v in vals) and any(isinstance(v, SBool) for v in vals):
+                    ts = [v.t if isinstance(v, SBool) else z3.BoolVal(v) for v in vals]
+                    return SBool(z3.Or(*ts) if isinstance(node.op, ast.Or) else z3.And(*ts))
+                if any(isinstance(v, SV) for v in vals) and all(
+                        isinstance(v, (SV, SStr, str, SBool, bool, SInt, int)) or v is None for v in vals):
+                    out = self.to_jv(vals[-1])
+                    for v in reversed(vals[:-1]):
+                        t = self.to_jv(v)
+                        tr = self.truth_jv(t)
+                        out = z3.If(tr, t, out) if isinstance(node.op, ast.Or) else z3.If(tr, out, t)
+                    return SV(out)
         # python value semantics: returns the deciding operand
         last = None
         for v in node.values:
@@ -1647,7 +1686,10 @@ class Interp:
                 return obj.attrs[name]
             if hasattr(obj, "getattr"):
                 return obj.getattr(self, name)
-            raise Unsupported(f"attribute {name} of opaque {obj.name}")
+            if name.startswith("__"):
+                raise Unsupported(f"attribute {name} of opaque {obj.name}")
+            obj.attrs[name] = SOpaque(f"{obj.name}.{name}")     # read-only data the engine does not look into
+            return obj.attrs[name]
         import enum as _enum
         if isinstance(obj, _enum.Enum):
             return getattr(obj, name)
